@@ -252,6 +252,27 @@ func genC18Wire(t *rapid.T) *peCase {
 	cfg.Release = drawCount(t, "L", r)
 	cfg.Dereg = drawCount(t, "D", r)
 	cfg.UeNumber = int64(rapid.IntRange(-2, 50).Draw(t, "ue_number"))
+	if rapid.IntRange(0, 3).Draw(t, "other_network") == 1 {
+		// "all assignments of values to the keys": mcc and mnc need not repeat the leading digits of initial_imsi
+		// (a subscriber of one network served by another). The procedures receive the IMSI and the two keys
+		// separately; the subscriber's identity and the announced PLMN come from the IMSI (C11), the serving
+		// network name - and with it RES* and every key below K_AUSF - from the keys mcc and mnc.
+		for {
+			mcc := fmt.Sprintf("%03d", rapid.IntRange(0, 999).Draw(t, "serving_mcc"))
+			mnc := fmt.Sprintf("%0*d", len(cfg.MNC), rapid.IntRange(0, int(pow10(len(cfg.MNC)))-1).Draw(t, "serving_mnc"))
+			if rapid.Bool().Draw(t, "serving_one_key_only") {
+				if rapid.Bool().Draw(t, "serving_mcc_only") {
+					mnc = cfg.MNC
+				} else {
+					mcc = cfg.MCC
+				}
+			}
+			if mcc+mnc != cfg.MCC+cfg.MNC {
+				cfg.MCC, cfg.MNC = mcc, mnc
+				break
+			}
+		}
+	}
 	c := &peCase{Level: "main", Cfg: cfg}
 	c.Sc = genScenario(t, cfg, r, refamf.Policy{})
 	return c
@@ -285,9 +306,14 @@ func evalC18Wire(c *peCase) evalResult {
 	if !o.HasGNBName || o.GNBName != cfg.GnbName {
 		return fail("gnb_name", "NG Setup announces RAN node name %q (present %v), configured gnb_name %q", o.GNBName, o.HasGNBName, cfg.GnbName)
 	}
-	plmn := refamf.EncodePLMN(cfg.MCC, cfg.MNC)
+	prov := cfg.Provision()
+	plmn := refamf.EncodePLMN(prov.MCC, prov.MNC)
 	if len(o.PLMNs) != 1 || o.PLMNs[0] != hex.EncodeToString(plmn[:]) {
-		return fail("plmn", "PLMN octets seen on the wire %v, configured mcc %s mnc %s = %x", o.PLMNs, cfg.MCC, cfg.MNC, plmn)
+		return fail("plmn", "PLMN octets seen on the wire %v, the configured initial_imsi %s (with the %d MNC digits of mnc) gives %x", o.PLMNs, cfg.InitialIMSI, len(cfg.MNC), plmn)
+	}
+	if prov.ServingMCC != "" {
+		// RES* and the NAS MACs verified (below, and by the AMF) under the serving network name of the keys mcc/mnc
+		v.Classes = append(v.Classes, "mcc-mnc-name-another-network-than-the-imsi")
 	}
 	if len(o.SUPIs) == 0 || o.SUPIs[0] != cfg.InitialIMSI {
 		return fail("initial_imsi", "first SUCI decodes to %v, configured initial_imsi %s", o.SUPIs, cfg.InitialIMSI)
